@@ -839,14 +839,43 @@ Section SpecLoops.
     end.
 End SpecLoops.
 
-Fixpoint resolve (we re : env) (w r : schema) (a : aval) {struct a} : rres pyval :=
+(** the reader options return_named_type / return_record_name (and their _override variants): the value read from a
+    writer union is paired with the name of its type - the name the READER calls it by when the reader schema is a
+    union, too.  The decision looks at the definition of the branch that was written. *)
+Definition union_pick (we re : env) (wb r : schema) : option schema :=     (* the branch of a reader union the rules pick *)
+  match deref re r with
+  | SUnion rbs => pick_branch we re (deref we wb) rbs
+  | _ => None
+  end.
+
+Definition wrap_spec (o : ropts) (we re : env) (wbs : list schema) (wb : schema) (rb : option schema) (result : pyval)
+  : rres pyval :=
+  let k := branch_kind we wb in
+  let name := match rb with
+              | Some b => option_map fst (branch_kind re b)
+              | None => option_map fst k
+              end in
+  let pair := match name with Some n => ROk (PTuple [PStr n; result]) | None => RErrOther end in
+  if ret_named_override o && (count_named we wbs =? 1) then ROk result
+  else match (if ret_named o then k else None) with
+       | Some _ => pair
+       | None =>
+           if ret_rec_override o && (count_records we wbs =? 1) then ROk result
+           else match (if ret_rec o then k else None) with
+                | Some (_, true) => pair
+                | _ => ROk result
+                end
+       end.
+
+Fixpoint resolve (o : ropts) (we re : env) (w r : schema) (a : aval) {struct a} : rres pyval :=
   let dw := deref we w in
   let dr := reader_side we re dw r in        (* None: no branch of a reader union matches *)
   match dw, a with
   (* writer union: the branch the datum was written with is resolved against the reader schema *)
   | SUnion wbs, AUnion i x =>
       match nthZ wbs i with
-      | Some wb => resolve we re wb r x
+      | Some wb => let+ v := resolve o we re wb r x in
+                   wrap_spec o we re wbs wb (union_pick we re wb r) v      (* (name, value) under the reader options *)
       | None => RErrOther
       end
   (* primitive types: the same type, or a promotion *)
@@ -906,7 +935,7 @@ Fixpoint resolve (we re : env) (w r : schema) (a : aval) {struct a} : rres pyval
       match dr with
       | Some (SRecord rn ral rfs) =>
           if names_match wn rn ral then
-            let+ record := res_fields (resolve we re) rfs wfs l [] in
+            let+ record := res_fields (resolve o we re) rfs wfs l [] in
             (* reader-only fields from their defaults *)
             let+ record := spec_defaults re (field_table rfs) record in
             ROk (PDict record)
@@ -918,7 +947,7 @@ Fixpoint resolve (we re : env) (w r : schema) (a : aval) {struct a} : rres pyval
       match dr with
       | Some (SArray ri) =>
           if smatch we re true wi ri then
-            let+ l := res_items (resolve we re) wi ri l in ROk (PList l)
+            let+ l := res_items (resolve o we re) wi ri l in ROk (PList l)
           else RErrResolution
       | _ => RErrResolution
       end
@@ -926,7 +955,7 @@ Fixpoint resolve (we re : env) (w r : schema) (a : aval) {struct a} : rres pyval
       match dr with
       | Some (SMap rv) =>
           if smatch we re true wv rv then
-            let+ l := res_entries (resolve we re) wv rv l in ROk (PDict (dict_of_items l))
+            let+ l := res_entries (resolve o we re) wv rv l in ROk (PDict (dict_of_items l))
           else RErrResolution
       | _ => RErrResolution
       end
@@ -1040,7 +1069,7 @@ Definition env_scoped (e : env) : bool := forallb (fun nd => named_core (snd nd)
 
 Fixpoint agreen (k : nat) (we re : env) (w r : schema) {struct k} : bool :=
   match k with
-  | O => false
+  | O => true          (* nothing is visited beyond the depth of the value *)
   | S k =>
     let rd := deref1 re r in                     (* the reader schema, dereferenced *)
     let node (w' b : schema) : bool :=          (* a writer schema that is no union / reference meets the reader schema b *)
@@ -1110,14 +1139,40 @@ Definition RFUEL : nat := 400.
 Definition ZDEPTH : nat := 16.   (* depth to which the zone with references is evaluated for the statistics *)
 
 (* implementation model on the bytes ; specification on the value decoded under the writer schema *)
+(* the height at which a value is typed (typedn): only for the statistics of the zone with references *)
+Fixpoint theight (f : nat) (e : env) (s : schema) (a : aval) {struct f} : nat :=
+  match f with
+  | O => O
+  | S f =>
+    S (match s, a with
+       | SRef nm, _ => match lookup e nm with Some d => theight f e d a | None => O end
+       | SAnnot _ s', _ => theight f e s' a
+       | SArray s', AArray l => fold_left (fun m x => Nat.max m (theight f e s' x)) l O
+       | SMap s', AMap l => fold_left (fun m kx => Nat.max m (theight f e s' (snd kx))) l O
+       | SUnion bs, AUnion i x => match nthZ bs i with Some b => theight f e b x | None => O end
+       | SRecord _ _ fs, ARecord l =>
+           (fix go (fs : list field) (l : list aval) (m : nat) {struct l} : nat :=
+              match fs, l with
+              | fd :: fs, x :: l => go fs l (Nat.max m (theight f e (ftype fd) x))
+              | _, _ => m
+              end) fs l O
+       | _, _ => O
+       end)
+  end.
+
 Definition run_resolve (o : ropts) (we re : env) (w : schema) (R : option schema) (r : schema) (bs : bytes) : string :=
+  let d := dec RFUEL we w bs in
   show_rres (rdec RFUEL we re o w R bs) ++ ";" ++
-  match dec RFUEL we w bs with
-  | Ok (a, _) => show_rval (resolve we re w r a)
+  match d with
+  | Ok (a, _) => show_rval (resolve o we re w r a)
   | Err => "EO"
   | OutOfFuel => "FUEL"
   end ++ ";" ++ (if inline w && inline r && agree we re w r then "Z1"
-                 else if env_scoped we && env_scoped re && scoped we w && scoped re r && agreen ZDEPTH we re w r then "Z2"
+                 else if env_scoped we && env_scoped re && scoped we w && scoped re r && agreen ZDEPTH we re w r then
+                   match d with
+                   | Ok (a, _) => if (theight 100 we w a <=? ZDEPTH)%nat then "Z2" else "Z0H"
+                   | _ => "Z2"
+                   end
                  else "Z0" ++ (if env_scoped we then "" else "E") ++ (if env_scoped re then "" else "e")
                            ++ (if scoped we w then "" else "W") ++ (if scoped re r then "" else "R")
                            ++ (if agreen ZDEPTH we re w r then "" else "A")).
